@@ -472,14 +472,14 @@ func (fr *Frame) blockingCallAt(st *State, ins ssa.Instruction, name string, fc 
 	}
 	just := "false"
 	for _, b := range fc.Flags["blocking"] {
-		if b == "conn_bound" {
+		if b == "conn_bound" || b == "process-output" || b == "process-exit" {
 			// accepted in mode peer-dead only
 			for p := fr; p != nil; p = p.parent {
 				if p.contract != nil {
 					for _, m := range p.contract.Flags["bounded"] {
 						if m == "peer-dead" {
 							just = "true"
-							r.assumes["mode peer-dead: pending I/O on a connection to a dead peer fails (kernel/yamux/gRPC), call "+name] = true
+							r.assumes["mode peer-dead: pending I/O on a connection or pipe to a dead peer ends (kernel/yamux/gRPC), waiting for its exit ends, call "+name] = true
 						}
 					}
 				}
